@@ -195,17 +195,19 @@ Print Assumptions C17_lazycontour_alias_refuted.
 
 (* --- per-object array caches (H5ScalarEvent, ChildScalar, BasinProxyFeature) -- *)
 
-(* Whatever sequence of reads (whole array, slices, fancy indexing, copies)
-   and in-place modifications of the returned arrays: every read returns the
-   stored data. *)
+(* Whatever sequence of reads (whole array, slices, single items, fancy
+   indexing, copies, conversions to another dtype -- also as the very first
+   access) and in-place modifications of the returned arrays: every read
+   returns what the request denotes on the stored data, in the requested
+   dtype. *)
 Theorem C17_object_cache_history_fresh :
-  forall (data : list Z) (reuse : bool) (ops : list oop),
-    map oobs (snd (orun data true reuse o_init ops)) = map (ospec data) ops.
+  forall (data : list Z) (nat_dt : Z) (reuse : bool) (ops : list oop),
+    map oobs (snd (orun data true nat_dt reuse o_init ops)) = map (ospec data nat_dt) ops.
 Proof. exact obj_history_fresh. Qed.
 Print Assumptions C17_object_cache_history_fresh.
 
 Theorem C17_object_cache_alias_refuted :
-  exists data ops, map oobs (snd (orun data false true o_init ops)) <> map (ospec data) ops.
+  exists data ops, map oobs (snd (orun data false 3 true o_init ops)) <> map (ospec data 3) ops.
 Proof. exact obj_alias_refuted. Qed.
 Print Assumptions C17_object_cache_alias_refuted.
 
